@@ -440,6 +440,7 @@ fn check_path(b: &Bounds, events: &[Ev], result_opt: Option<&Result<ParseResult<
     let mut in_error_path = false;
     let mut shadow_valid = true;                   // false between a recovery and the next full view of the real stack
     let mut after_recovery = false;                // a recovery has pushed its error state and the lookahead has not been shifted yet
+    let mut in_accepts = false;                    // inside error_recovery (after the error was built): table queries there are simulations
     for (ix, ev) in events.iter().enumerate() {
         match ev {
             Ev::Next(Some(Ok(i))) => pulled.push(*i),
@@ -452,7 +453,10 @@ fn check_path(b: &Bounds, events: &[Ev], result_opt: Option<&Result<ParseResult<
             }
             Ev::Method { origin, state, method, kind, first, .. } => {
                 // main loop: action() followed by as_shift(); parse_eof: eof_action() followed by as_reduce()
-                if *first && *origin == Origin::Tok && *method == "as_shift" {
+                // An error-kind answer of the token / EOF table outside accepts() is the detection of a syntax error.  accepts() asks the same
+                // tables about simulated states, but only between a detection and the end of that recovery, where these clauses are idle;
+                // the classification does not depend on which ParserAction method the driver happens to call first.
+                if *first && *origin == Origin::Tok && !in_accepts {
                     if shadow.is_empty() { shadow.push(*state); }
                     if let Some(l) = shadow.last_mut() { if l.0 == u32::MAX { *l = *state; } }
                     if shadow_valid && shadow.last() != Some(state) { v.push(("C01", format!("driver consulted the action table with state {:?} but the LR run has {:?} on top", state, shadow.last()))); }
@@ -461,7 +465,7 @@ fn check_path(b: &Bounds, events: &[Ev], result_opt: Option<&Result<ParseResult<
                         if after_recovery { v.push(("C08", "no progress after error recovery: accepts() approved the lookahead for the recovery state, but the parse hits an error action again before shifting it".into())); }
                     }
                 }
-                if *first && *origin == Origin::Eof && *method == "as_reduce" {
+                if *first && *origin == Origin::Eof && !in_accepts {
                     if shadow.is_empty() { shadow.push(*state); }
                     if let Some(l) = shadow.last_mut() { if l.0 == u32::MAX { *l = *state; } }
                     if shadow_valid && shadow.last() != Some(state) { v.push(("C01", format!("driver consulted the EOF table with state {:?} but the LR run has {:?} on top", state, shadow.last()))); }
@@ -470,7 +474,8 @@ fn check_path(b: &Bounds, events: &[Ev], result_opt: Option<&Result<ParseResult<
                         if after_recovery { v.push(("C08", "no progress after error recovery at end of input: accepts() approved EOF for the recovery state, but the EOF action is an error again".into())); }
                     }
                 }
-                if *origin == Origin::Tok && *method == "as_shift" && *kind == 1 { pending_shift = Some(*state); }
+                if *origin == Origin::Tok && *kind == 1 && !in_accepts { pending_shift = Some(*state); }
+                let _ = method;
             }
             Ev::TokenToSymbol(i) => {
                 after_recovery = false;
@@ -498,6 +503,7 @@ fn check_path(b: &Bounds, events: &[Ev], result_opt: Option<&Result<ParseResult<
             }
             Ev::Goto(_, _) => {}
             Ev::Expected { n, states } => {
+                in_accepts = true;
                 for (a, b) in shadow.iter_mut().zip(states.iter()) { if a.0 == u32::MAX { *a = *b; } }
                 expected_calls.push((*n, states.clone(), ix));
                 if let Some((eix, _)) = &injected_err { if ix > *eix { v.push(("C17", "an expected-token list was computed after an error had been returned".into())); } }
@@ -522,6 +528,7 @@ fn check_path(b: &Bounds, events: &[Ev], result_opt: Option<&Result<ParseResult<
                 detect_stack = None;
                 shadow_valid = false;
                 after_recovery = true;
+                in_accepts = false;
             }
             _ => {}
         }
